@@ -17,8 +17,10 @@ import (
 	"encoding/hex"
 	"encoding/json"
 	"errors"
+	"fmt"
 	"math/rand"
 	"net"
+	"os"
 	"strconv"
 	"sync"
 	"testing"
@@ -69,6 +71,10 @@ func TestVerifC19(t *testing.T) {
 			t.Fatal(err)
 		}
 		res := map[string]any{"i": i, "k": c.K}
+		if c.K == "hop" {
+			// a panic in one of the conn's own goroutines kills the process: leave a marker naming the case
+			_ = os.WriteFile(os.Getenv("VERIF_OUT")+".cur", []byte(strconv.Itoa(i)), 0o644)
+		}
 		switch c.K {
 		case "pu":
 			c19PU(c, res)
@@ -83,6 +89,7 @@ func TestVerifC19(t *testing.T) {
 		}
 		out.Emit(res)
 	}
+	_ = os.Remove(os.Getenv("VERIF_OUT") + ".cur")
 }
 
 // smallest accepted Min (binary search on the implementation; the proofs take it as a parameter)
@@ -595,6 +602,7 @@ func c19Hop(t *testing.T, c c19Case, res map[string]any) {
 		w.fail[f] = true
 	}
 	drainedAll := false
+	bodyPanic := false
 	census := [][2]int{}
 	var verdictOK = true
 	var why string
@@ -616,9 +624,24 @@ func c19Hop(t *testing.T, c c19Case, res map[string]any) {
 				return
 			}
 			u := pc.(*udpHopPacketConn)
+			var wg sync.WaitGroup
+			// a panic in the bubble's main goroutine becomes a verdict; everything is then shut down so the bubble can end
+			defer func() {
+				if r := recover(); r != nil {
+					fail("panic: " + fmt.Sprint(r))
+					bodyPanic = true
+					vCatch(func() { _ = u.Close() })
+					w.mu.Lock()
+					for _, s := range w.socks {
+						s.open = false
+					}
+					w.cond.Broadcast()
+					w.mu.Unlock()
+					wg.Wait()
+				}
+			}()
 			w.snap(u, false)
 			start := time.Now()
-			var wg sync.WaitGroup
 			byW := map[int][]c19Op{}
 			for _, op := range c.Ops {
 				byW[op.W] = append(byW[op.W], op)
@@ -750,7 +773,9 @@ func c19Hop(t *testing.T, c c19Case, res map[string]any) {
 						if d > 0 {
 							time.Sleep(d)
 						}
-						run(op)
+						if p, msg := vCatch(func() { run(op) }); p {
+							fail("panic in " + op.Op + ": " + msg)
+						}
 					}
 				}(ops)
 			}
@@ -806,6 +831,9 @@ func c19Hop(t *testing.T, c c19Case, res map[string]any) {
 			w.mu.Unlock()
 		})
 	})
+	if bodyPanic {
+		panicked, pmsg = true, why[len("panic: "):]
+	}
 	if panicked {
 		res["panic"] = true
 		res["ok"] = false
